@@ -52,6 +52,7 @@ class Lockstep:
         # each vial gets a random "wish" step after which the harness lets it nucleate
         self.wish = np.array([rng.randint(0, self.n - 1) for _ in range(self.N)])
         self.cand_counts = []
+        self.served = []            # the dice vectors actually handed to the implementation, one per call
 
     @property
     def hshelf(self):
@@ -86,6 +87,9 @@ class Lockstep:
             self.problems.append(("candidate-count", "step %d: %d draws requested, %d vials are liquid and supercooled" % (self.k, m, len(idx))))
         with np.errstate(all="ignore"):
             P = self.kb * c["V"] * (c["T_eq_l"] - T2) ** c["b"] * S.dt
+        # a supercooling so small that the rounding difference between this restatement and the implementation (temperatures near 273 in
+        # kelvin configurations) could move P = k_v V dT^b dt across a dice value placed right next to it: such vials only get dice far from P
+        tie = (c["T_eq_l"] - T2) < 1e-6 * max(1.0, abs(c["T_eq_l"]))
         dice = np.empty(len(idx)); dec = np.zeros(self.N, bool)
         cn_step = (self.k_cn is not None and self.k == self.k_cn)
         for t, i in enumerate(idx):
@@ -96,9 +100,9 @@ class Lockstep:
             elif Pi >= 1:
                 dice[t] = self.rng.choice([0.0, 0.999999999]); dec[i] = True      # certain once P reaches 1
             elif yes and Pi > 1e-300:
-                dice[t] = Pi * (1 - 1e-6) if self.rng.random() < 0.7 else 0.0; dec[i] = True
+                dice[t] = Pi * (1 - 1e-4) if (self.rng.random() < 0.7 and not tie[i]) else 0.0; dec[i] = True
             else:
-                dice[t] = min(Pi * (1 + 1e-6), 0.999999999) if self.rng.random() < 0.7 and Pi > 1e-300 else 0.999999999
+                dice[t] = min(Pi * (1 + 1e-4), 0.999999999) if (self.rng.random() < 0.7 and Pi > 1e-300 and not tie[i]) else 0.999999999
                 if dice[t] < Pi:          # Pi*(1+1e-6) rounded below Pi cannot happen; 0.999999999 < Pi < 1 can
                     dec[i] = True
             if len(self.samples) < 400 and 1e-290 < Pi < 1e6 and self.rng.random() < 0.05:
@@ -108,6 +112,65 @@ class Lockstep:
         self._step(dec)
         out = np.zeros(m)
         out[: min(m, len(dice))] = dice[: min(m, len(dice))]
+        self.served.append(out.copy())
+        return out
+
+    def posthoc(self):
+        """The rate law checked step by step on the IMPLEMENTATION's own stored states (nothing accumulates, so an unstable configuration in
+        which this restatement and the implementation drift apart from rounding cannot raise an alarm): with the dice that were actually
+        served in step k, the vials that get ice in column k+1 are exactly the liquid, supercooled ones whose dice value is below
+        k_v V (T_eq_l - T)^b dt (all candidates at the controlled-nucleation step), and the recorded temperature is the supercooled one."""
+        S, c = self.S, self.c
+        XT, XS = np.array(S.X_T), np.array(S.X_sigma)
+        st = {k: np.asarray(v, float) for k, v in S.stats.items()}
+        n = XT.shape[1]
+        out = []
+        call = 0
+        tol_T = 1e-9 * max(1.0, abs(c["T_eq_l"]))
+        for k in range(n):
+            liquid = XS[:, k] == 0
+            if not liquid.any():
+                continue
+            if call >= len(self.served):
+                out.append(("missing-draw", "step %d has liquid vials but the generator was not asked for draws" % k)); break
+            dice = self.served[call]; call += 1
+            T2, s2, q = c01.numpy_step(S, self.G, self.hshelf, self.shelf[k], XT[:, k], XS[:, k], np.zeros(self.N, bool))
+            cand = liquid & (T2 < c["T_eq_l"])
+            unsure = liquid & (np.abs(T2 - c["T_eq_l"]) <= tol_T)
+            idx = np.nonzero(cand)[0]
+            if len(dice) != len(idx):
+                if not unsure.any():
+                    out.append(("candidate-count", "step %d: %d draws requested, %d vials are liquid and supercooled" % (k, len(dice), len(idx))))
+                    break
+                continue
+            with np.errstate(all="ignore"):
+                P = c["b"] * 0 + self.kb * c["V"] * np.abs(c["T_eq_l"] - T2) ** c["b"] * S.dt
+            if self.k_cn is not None and k == self.k_cn:
+                P = np.ones(self.N)
+            want = np.zeros(self.N, bool); tie = np.zeros(self.N, bool)
+            for t_, i in enumerate(idx):
+                want[i] = dice[t_] < P[i]
+                tie[i] = abs(dice[t_] - P[i]) <= 1e-7 * max(P[i], 1e-300)
+            if k < n - 1:
+                got = liquid & (XS[:, k + 1] != 0)
+            else:
+                got = liquid & np.isclose(st["t_nucleation"], (k + 1) * S.dt)
+            bad = (want != got) & ~tie & ~unsure
+            if bad.any():
+                i = int(np.argmax(bad))
+                out.append(("nucleation-step", "step %d vial %d: liquid and supercooled by %r K, dice %r, k_v V dT^b dt = %r: the law says %s, the implementation %s" % (
+                    k, i, c["T_eq_l"] - T2[i], (dice[list(idx).index(i)] if i in idx else None), P[i], "nucleates" if want[i] else "stays liquid", "nucleates" if got[i] else "stays liquid")))
+                break
+            for i in np.nonzero(got & want)[0]:
+                if abs(st["t_nucleation"][i] - (k + 1) * S.dt) > 1e-9 * (1 + (k + 1) * S.dt):
+                    out.append(("nucleation-step", "vial %d gets ice in step %d but t_nucleation = %r" % (i, k, st["t_nucleation"][i]))); break
+                if abs(st["T_nucleation"][i] - T2[i]) > 1e-9 * (1 + abs(T2[i])):
+                    out.append(("nucleation-temperature", "vial %d: recorded T_nucleation %r, supercooled temperature at that moment %r" % (i, st["T_nucleation"][i], T2[i]))); break
+            if out:
+                break
+        else:
+            if call < len(self.served):
+                out.append(("extra-draw", "the generator was asked for draws %d times, only %d steps have liquid vials" % (len(self.served), call)))
         return out
 
     def finish(self):
